@@ -48,8 +48,8 @@ Qed.
 Lemma check_empty h : DevInv h -> names_nonempty h -> check h = [].
 Proof.
   intros [[Hd Hne] Hn] Hnames. unfold check. apply flat_map_nil. intros [n nd] Hp. simpl.
-  apply flat_map_nil. intros dc Hdc. unfold nodes_ok in Hn. rewrite Forall_forall in Hn.
-  pose proof (Hn _ Hp) as Hnd. simpl in Hnd. unfold node_ok in Hnd. rewrite Forall_forall in Hnd.
+  apply flat_map_nil. intros dc Hdc. unfold nodes_ok, Gen.nodes_ok in Hn. rewrite Forall_forall in Hn.
+  pose proof (Hn _ Hp) as Hnd. simpl in Hnd. unfold node_ok, Gen.node_ok in Hnd. rewrite Forall_forall in Hnd.
   destruct (Hnd dc Hdc) as [Hc Hs]. unfold check_dc.
   rewrite Forall_forall in Hne. rewrite (str_empty_false _ (Hne _ Hc)).
   rewrite (find_last_registered _ _ Hd Hc). rewrite c_eqb_refl. simpl.
@@ -303,4 +303,47 @@ Proof.
     match goal with |- context [in_io_b ?x w] => assert (B : in_io_b x w = true) end.
     { apply in_io_b_In. apply in_io_b_In in A. unfold io in *. simpl. rewrite somes_app_none. exact A. }
     rewrite B. reflexivity.
+Qed.
+
+(* ------------------------------------------------------------------ the checker on DevInvW states *)
+(* after shape edits the only thing the library's check can report is about axes: out of range (7), repeated (8) *)
+Definition axis_err (e : err) : Prop := fst (fst e) = 7 \/ fst (fst e) = 8.
+
+Lemma Forall_flat_map {A B} (P : B -> Prop) (f : A -> list B) l :
+  (forall x, In x l -> Forall P (f x)) -> Forall P (flat_map f l).
+Proof.
+  induction l as [|x l IH]; simpl; intros H; [constructor|]. apply Forall_app. split.
+  - apply H. left. reflexivity.
+  - apply IH. intros y Hy. apply H. right. exact Hy.
+Qed.
+
+Lemma check_dims_axis n rank : forall dims seen,
+  Forall (fun d => 1 <= sd_shards d) dims -> Forall axis_err (check_dims n rank seen dims).
+Proof.
+  induction dims as [|d r IH]; intros seen F; simpl; [constructor|]. inversion F as [|? ? Hs Fr]; subst.
+  assert (E : sd_shards d <? 1 = false) by lia. rewrite E.
+  destruct (negb (in_range rank (sd_axis d))).
+  - constructor; [left; reflexivity|]. simpl. apply IH. exact Fr.
+  - apply Forall_app. split.
+    + destruct (zmem _ seen); [constructor; [right; reflexivity | constructor] | constructor].
+    + simpl. apply IH. exact Fr.
+Qed.
+
+Lemma check_weak h : DevInvW h -> names_nonempty h -> Forall axis_err (check h).
+Proof.
+  intros [[Hd Hne] Hn] Hnames. unfold check. apply Forall_flat_map. intros [n nd] Hp. simpl.
+  apply Forall_flat_map. intros dc Hdc. unfold Gen.nodes_ok in Hn. rewrite Forall_forall in Hn.
+  pose proof (Hn _ Hp) as Hnd. simpl in Hnd. unfold Gen.node_ok in Hnd. rewrite Forall_forall in Hnd.
+  destruct (Hnd dc Hdc) as [Hc Hs]. unfold check_dc.
+  rewrite Forall_forall in Hne. rewrite (str_empty_false _ (Hne _ Hc)).
+  rewrite (find_last_registered _ _ Hd Hc). rewrite c_eqb_refl. simpl.
+  apply Forall_flat_map. intros sp Hsp. rewrite Forall_forall in Hs. destruct (Hs sp Hsp) as [Hio [[Hf _] Hdv]].
+  unfold check_spec. rewrite (str_empty_false _ (Hnames (n, nd) dc sp Hp Hdc Hsp)).
+  rewrite (proj2 (in_io_b_In nd (sp_val sp)) Hio). simpl.
+  apply Forall_app. split.
+  - apply check_dims_axis. eapply Forall_impl; [|exact Hf]. intros d [_ H]. exact H.
+  - replace (filter _ (sp_dev sp)) with (@nil Z); [constructor|].
+    symmetry. clear - Hdv. induction (sp_dev sp) as [|d r IH]; simpl; [reflexivity|].
+    inversion Hdv; subst. assert (E : (0 <=? d) && (d <? c_ndev (dc_cfg dc)) = true) by lia. rewrite E. simpl.
+    apply IH. assumption.
 Qed.
